@@ -221,6 +221,9 @@ fn main() {
     cov.insert("exhaustive".into(), json!(all_complete));
     cov.insert("rule".into(), json!(
         "states are canonical (buffer bytes, current type, reference accumulator, reference type, scenario cursor); every transition executes the real parse_record / parse_record_nocopy / reset on a parser rebuilt by replaying the witness history, and is compared with the reference accumulate-then-parse step (result value incl. slice provenance, defrag_in_progress, buffer, state-unchanged-on-refusal, size bound). S0 is depth-bounded (bound reported); S1 runs to fixpoint; S2 is a set of deterministic 10 MiB histories; S3 replays fixed split histories under every one of the 65536 record-layer versions (on all records and on each single record); S4 feeds hand-built first fragments of about 10 MiB"));
+    // the same check against the crate built with all cargo features (std, serialize, unstable)
+    let mut sink = sink;
+    run.all_features_variant(&mut sink);
     let code = run.finish(
         &sink,
         cov,
